@@ -19,6 +19,9 @@ FUNCS = {
     "neg": lambda x: -x,
     "last": lambda x: x[-1],
     "zero": lambda x: 0,
+    "first": lambda x: x[0],
+    "mod3": lambda x: x % 3,
+    "div10": lambda x: x // 10,
 }
 
 def dec(v):
@@ -533,6 +536,15 @@ def op_setitem(S, args):
     L[i] = v
     return Mut(None, L)
 
+def op_prog(_, args):
+    # A whole program (aliasing family): the Python text is the same statement sequence as the Starlark text, with
+    # list(...) around the results the spec defines as new lists but Python returns as iterators/views.  What is
+    # observed is every operand and the result AFTER both have been mutated: a result that shares storage with an
+    # operand shows up as a difference.
+    ns = {}
+    exec(args[1], ns)
+    return ns["res"]
+
 def op_slice(S, args):
     a, b, c = args
     want_index(a); want_index(b); want_index(c)
@@ -552,7 +564,7 @@ def op_mul(x, args):
     raise StarErr("unsupported operand types")
 
 OPS = {
-    "index": op_index, "slice": op_slice, "setitem": op_setitem, "add": op_add, "mul": op_mul, "interp": str_interp,
+    "index": op_index, "slice": op_slice, "prog": op_prog, "setitem": op_setitem, "add": op_add, "mul": op_mul, "interp": str_interp,
     "m:find": str_search("find"), "m:rfind": str_search("rfind"), "m:index": str_search("index"), "m:rindex": str_search("rindex"),
     "m:count": str_count, "m:startswith": str_affix("startswith"), "m:endswith": str_affix("endswith"),
     "m:split": str_split("split"), "m:rsplit": str_split("rsplit"), "m:splitlines": str_splitlines,
